@@ -896,8 +896,164 @@ func (i *interpreter) intercept(fn *ssa.Function, args []value) nativeFn {
 		// method of foreign type without Pkg (wrappers)
 		pkg = recvPkg(fn.Signature.Recv().Type())
 	}
+	if pkg == "github.com/rs/zerolog" {
+		if h := zerologModel(fn); h != nil {
+			return h
+		}
+	}
 	if strings.HasPrefix(pkg, "github.com/rs/zerolog") || strings.HasPrefix(pkg, "github.com/fatih/color") {
 		return func(fr *frame, args []value) value { return zeroResults(fn) }
+	}
+	return nil
+}
+
+// zerologModel: the part of zerolog's contract that the log-file facade depends on. A Logger
+// made by zerolog.New(w) remembers w (slot 0 of the Logger value); Info()/Error()/... on it give
+// an Event that remembers w (slot 1); builder methods return their receiver; Msg/Msgf/Send
+// write ONE record - the message and a newline - to w with a single Write call. Everything
+// else (and every logger without a writer, e.g. the global one) stays a no-op.
+func zerologModel(fn *ssa.Function) nativeFn {
+	sig := fn.Signature
+	name := fn.Name()
+	if sig.Recv() == nil {
+		if name == "New" {
+			return func(fr *frame, args []value) value {
+				lg := zeroResults(fn).(structure)
+				lg[0] = args[0]
+				return lg
+			}
+		}
+		return nil
+	}
+	recv := sig.Recv().Type()
+	rname := ""
+	ptr := false
+	if p, ok := recv.(*types.Pointer); ok {
+		recv = p.Elem()
+		ptr = true
+	}
+	if n, ok := recv.(*types.Named); ok {
+		rname = n.Obj().Name()
+	}
+	loggerOf := func(v value) structure {
+		if ptr {
+			p, _ := v.(*value)
+			if p == nil {
+				return nil
+			}
+			st, _ := (*p).(structure)
+			return st
+		}
+		st, _ := v.(structure)
+		return st
+	}
+	switch rname {
+	case "Logger":
+		if sig.Results().Len() != 1 {
+			return nil
+		}
+		rt := sig.Results().At(0).Type()
+		if rp, ok := rt.(*types.Pointer); ok {
+			if n, ok := rp.Elem().(*types.Named); ok && n.Obj().Name() == "Event" {
+				return func(fr *frame, args []value) value {
+					lg := loggerOf(args[0])
+					if lg == nil {
+						return zeroResults(fn)
+					}
+					w, _ := lg[0].(iface)
+					if w.t == nil {
+						return zeroResults(fn)
+					}
+					ev := zero(rp.Elem()).(structure)
+					ev[1] = w
+					var cell value = ev
+					return &cell
+				}
+			}
+		}
+		if n, ok := rt.(*types.Named); ok && n.Obj().Name() == "Context" {
+			// With(): the context carries a copy of the logger
+			return func(fr *frame, args []value) value {
+				c := zeroResults(fn).(structure)
+				if lg := loggerOf(args[0]); lg != nil {
+					c[0] = append(structure{}, lg...)
+				}
+				return c
+			}
+		}
+		if n, ok := rt.(*types.Named); ok && n.Obj().Name() == "Logger" {
+			return func(fr *frame, args []value) value {
+				if lg := loggerOf(args[0]); lg != nil {
+					return append(structure{}, lg...)
+				}
+				return zeroResults(fn)
+			}
+		}
+	case "Context":
+		if sig.Results().Len() == 1 {
+			if n, ok := sig.Results().At(0).Type().(*types.Named); ok {
+				switch n.Obj().Name() {
+				case "Context":
+					return func(fr *frame, args []value) value { return args[0] }
+				case "Logger":
+					return func(fr *frame, args []value) value {
+						if c, ok := args[0].(structure); ok {
+							if lg, ok := c[0].(structure); ok {
+								return append(structure{}, lg...)
+							}
+						}
+						return zeroResults(fn)
+					}
+				}
+			}
+		}
+	case "Event":
+		if !ptr {
+			return nil
+		}
+		switch name {
+		case "Msg", "Msgf", "Send":
+			return func(fr *frame, args []value) value {
+				p, _ := args[0].(*value)
+				if p == nil {
+					return nil
+				}
+				ev, _ := (*p).(structure)
+				if ev == nil {
+					return nil
+				}
+				w, _ := ev[1].(iface)
+				if w.t == nil {
+					return nil
+				}
+				var rec []value
+				if name != "Send" {
+					switch m := args[1].(type) {
+					case string:
+						for k := 0; k < len(m); k++ {
+							rec = append(rec, m[k])
+						}
+					case symstr:
+						rec = append(rec, m.b...)
+					}
+				}
+				rec = append(rec, byte('\n'))
+				wr := fr.i.prog.LookupMethod(w.t, nil, "Write")
+				if wr == nil {
+					fr.i.R.inconclusive("zerolog model: the logger's writer has no Write method")
+					return nil
+				}
+				call(fr.i, fr, token.NoPos, wr, []value{w.v, rec})
+				return nil
+			}
+		}
+		if sig.Results().Len() == 1 {
+			if rp, ok := sig.Results().At(0).Type().(*types.Pointer); ok {
+				if n, ok := rp.Elem().(*types.Named); ok && n.Obj().Name() == "Event" {
+					return func(fr *frame, args []value) value { return args[0] }
+				}
+			}
+		}
 	}
 	return nil
 }
